@@ -1,9 +1,62 @@
 import Lean.Data.Json
-/-! Line-protocol handler for property C07 (model side of the correspondence). -/
+import SpoxModel.Drv.VPCodec
+import SpoxModel.Model.VPHistory
+/-! Line-protocol handler for property C07: `{"fn": "history", "steps": [...]}` runs a construction
+    history on the model (`VP.run`, fixed variant) and reports every node's output values; the other
+    requests (`conv`, `node`) are those of the shared codec. -/
 namespace Drv.C07
-open Lean
+open Lean VP Drv.VPCodec
 
-/-- One request (a JSON value) in, one response (a JSON value) out. -/
-def handle (_req : Json) : Json := Json.mkObj [("error", "unimplemented")]
+partial def parsePayload (j : Json) : Except String Payload := do
+  let p ← j.getObjValAs? String "p"
+  match p with
+  | "arr" =>
+    return .arr (← parseDT (← j.getObjValAs? String "dt")) (← j.getObjValAs? (List Nat) "shape")
+      (← j.getObjValAs? Nat "pid")
+  | _ => throw s!"constant payloads are arrays, got {p}"
+
+def parseRefs (j : Json) : Except String (List VarRef) := do
+  let a ← j.getArr?
+  a.toList.mapM fun x => do
+    return { node := ← x.getObjValAs? Nat "node", out := ← x.getObjValAs? Nat "out" }
+
+def parseOuts (j : Json) : Except String (List (String × Option Ty)) := do
+  let a ← j.getArr?
+  a.toList.mapM fun x => do
+    return (← x.getObjValAs? String "key", ← parseOptTy ((x.getObjVal? "type").toOption.getD Json.null))
+
+def noSem : List Payload → String → Option Payload := fun _ _ => none
+
+def parseStep (j : Json) : Except String Step := do
+  let k ← j.getObjValAs? String "k"
+  match k with
+  | "argument" => return .argument (← j.getObjValAs? String "key") (← parseTy (← j.getObjVal? "type"))
+  | "constant" =>
+    return .constant (← j.getObjValAs? String "key")
+      (← parseOptTy ((j.getObjVal? "type").toOption.getD Json.null)) (← parsePayload (← j.getObjVal? "payload"))
+  | "standard" =>
+    return .standard (← parseSel (← j.getObjValAs? String "sel")) (← parseRefs (← j.getObjVal? "inputs"))
+      (← j.getObjValAs? (List String) "inNames") (← parseOuts (← j.getObjVal? "outs"))
+      (← j.getObjValAs? Bool "hasSubgraph") (← parseBackend (← j.getObjVal? "backend")) noSem
+  | "inline" =>
+    return .inline (← parseSel (← j.getObjValAs? String "sel")) (← parseRefs (← j.getObjVal? "inputs"))
+      (← j.getObjValAs? (List String) "inNames") (← j.getObjValAs? (List String) "gnames")
+      (← parseOuts (← j.getObjVal? "outs")) (← parseBackend (← j.getObjVal? "backend")) noSem
+  | _ => throw s!"bad step {k}"
+
+def nodeJson (n : NodeRec) : Json :=
+  Json.arr (n.outputs.map fun o => Json.mkObj [("key", o.key), ("value", optPvJson o.value)]).toArray
+
+def handle (req : Json) : Json :=
+  match req.getObjValAs? String "fn" with
+  | .ok "history" =>
+    match (do
+      let stepsJ ← req.getObjValAs? (Array Json) "steps"
+      let steps ← stepsJ.toList.mapM parseStep
+      let st := run Variant.fixed [] steps
+      return Json.mkObj [("nodes", Json.arr (st.map nodeJson).toArray)]) with
+    | .ok j => j
+    | .error e => Json.mkObj [("error", e)]
+  | _ => Drv.VPCodec.handle req
 
 end Drv.C07
